@@ -1,13 +1,16 @@
 package checks
 
 import (
+	"encoding/asn1"
 	"fmt"
 	"math/big"
 	mrand "math/rand/v2"
 
 	"github.com/gmrtd/gmrtd/activeauth"
+	"github.com/gmrtd/gmrtd/cms"
 	"github.com/gmrtd/gmrtd/document"
 	"github.com/gmrtd/gmrtd/iso7816"
+	"github.com/gmrtd/gmrtd/verifier"
 
 	"verifharness/chipsim"
 	"verifharness/der"
@@ -513,7 +516,7 @@ func c07Plumbing(k *fw.K, i int) {
 	doc := &document.Document{}
 	dg15, err := document.NewDG15(c07NewDG15(key.spki))
 	if err != nil {
-		fw.Bug("NewDG15: %v", err)
+		fw.LibFail("dg15-rejected", "NewDG15 rejects a well-formed DG15: %v", err)
 	}
 	doc.Mf.Lds1.Dg15 = dg15
 	ch := randBytes(r, 8)
@@ -551,6 +554,73 @@ func c07Plumbing(k *fw.K, i int) {
 		return
 	}
 	k.Count("plumbing_ok")
+
+	// offline nonce binding: verification with a supplied challenge hard-fails exactly when
+	// the recorded nonce differs - whatever else is wrong with the evidence
+	mk := func(mod func(e *document.ActiveAuthEvidence)) []byte {
+		ev := *res.Evidence
+		ev.Nonce = append([]byte{}, res.Evidence.Nonce...)
+		ev.Signature = append([]byte{}, res.Evidence.Signature...)
+		if mod != nil {
+			mod(&ev)
+		}
+		dx := &document.DocumentEx{Document: *doc}
+		dx.Session.ActiveAuthResult = &document.ActiveAuthResult{Success: true, Evidence: &ev}
+		blob, err := dx.ToCbor()
+		if err != nil {
+			fw.LibFail("export-failed", "ToCbor of a document with AA evidence: %v", err)
+		}
+		return blob
+	}
+	other := append([]byte{}, wire...)
+	other[r.IntN(8)] ^= 1 << uint(r.IntN(8))
+	type oc struct {
+		name      string
+		blob      []byte
+		challenge []byte
+		recorded  []byte
+	}
+	altered := append([]byte{}, wire...)
+	altered[0] ^= 0x80
+	cases := []oc{
+		{"genuine/no-challenge", mk(nil), nil, wire},
+		{"genuine/same-challenge", mk(nil), wire, wire},
+		{"genuine/other-challenge", mk(nil), other, wire},
+		{"nonce-altered/original-challenge", mk(func(e *document.ActiveAuthEvidence) { e.Nonce = altered }), wire, altered},
+		{"signature-damaged/other-challenge", mk(func(e *document.ActiveAuthEvidence) { e.Signature[len(e.Signature)/2] ^= 0x04 }), other, wire},
+		{"signature-damaged/same-challenge", mk(func(e *document.ActiveAuthEvidence) { e.Signature[len(e.Signature)/2] ^= 0x04 }), wire, wire},
+		{"algorithm-foreign/other-challenge", mk(func(e *document.ActiveAuthEvidence) { e.Algorithm = asn1.ObjectIdentifier{2, 5, 4, 3} }), other, wire},
+		{"nonce-extended/original-challenge", mk(func(e *document.ActiveAuthEvidence) { e.Nonce = append(e.Nonce, 0) }), wire, append(append([]byte{}, wire...), 0)},
+	}
+	for _, cs := range cases {
+		v := verifier.NewVerifier(&cms.GenericCertPool{})
+		if cs.challenge != nil {
+			if _, err := v.WithAAChallenge(cs.challenge); err != nil {
+				k.Violation("aa:offline:withchallenge-rejected", fmt.Sprintf("Verifier.WithAAChallenge rejects an 8-byte challenge: %v", err), det)
+				return
+			}
+		}
+		k.AddEvals(1)
+		k.Distinct(fmt.Sprintf("offline|%s|%s|%x", key.desc, cs.name, cs.challenge))
+		out, verr := v.Verify(cs.blob)
+		mismatch := cs.challenge != nil && !bytesEq(cs.challenge, cs.recorded)
+		d2 := map[string]any{"key": key.desc, "case": cs.name, "supplied": fmt.Sprintf("%x", cs.challenge), "recorded_nonce": fmt.Sprintf("%x", cs.recorded), "err": fmt.Sprint(verr)}
+		if mismatch && verr == nil {
+			k.Violation("aa:offline:nonce-mismatch-not-a-hard-failure:"+cs.name, "offline verification with a supplied challenge that differs from the recorded nonce does not return an error", d2)
+			return
+		}
+		if !mismatch && verr != nil {
+			k.Violation("aa:offline:hard-failure-without-mismatch:"+cs.name, fmt.Sprintf("offline verification fails hard although the supplied challenge equals the recorded nonce (or none was supplied): %v", verr), d2)
+			return
+		}
+		if cs.name == "genuine/no-challenge" || cs.name == "genuine/same-challenge" {
+			if out == nil || out.Session.ActiveAuthResult == nil || !out.Session.ActiveAuthResult.Success {
+				k.Violation("aa:offline:genuine-evidence-rejected", "genuine AA evidence does not verify offline", d2)
+				return
+			}
+		}
+		k.Count("offline_nonce_binding_cases")
+	}
 }
 
 func runC07(c *fw.Ctx) {
